@@ -130,6 +130,10 @@ type c10LoginCase struct {
 	// check is the same in both modes; in online mode an accepted name is answered
 	// with an EncryptionRequest instead of the hand-over to the auth session.
 	Online bool `json:"online,omitempty"`
+	// Holder: the profile id the client announces in its login start (1.19.1+; the
+	// field is mandatory from 1.20.2): nil = none, otherwise 16 bytes. A client may
+	// put any value there; an offline-mode identity never depends on it.
+	Holder []byte `json:"holder,omitempty"`
 }
 
 var c10Auth = func() auth.Authenticator {
@@ -168,16 +172,29 @@ func c10LoginRun(c c10LoginCase) verifkit.Result {
 	inbound := newLoginInboundConn(newInitialInbound(conn, &net.TCPAddr{IP: net.IPv4(127, 0, 0, 1), Port: 25565}, packet.HandshakeIntent(2)))
 	h := newInitialLoginSessionHandler(conn, inbound, deps).(*initialLoginSessionHandler)
 
-	h.handleServerLogin(&packet.ServerLogin{Username: name})
+	login := &packet.ServerLogin{Username: name}
+	holderLabel := "holder-none"
+	if len(c.Holder) == 16 && protocol.GreaterEqual(version.Minecraft_1_19_1) {
+		copy(login.HolderID[:], c.Holder)
+		if ref := c10RefUUID(name); [16]byte(login.HolderID) == ref {
+			holderLabel = "holder-is-offline-uuid"
+		} else {
+			holderLabel = "holder-is-foreign-uuid"
+		}
+	}
+	h.handleServerLogin(login)
 
 	want := c10RefValidUsername(name)
-	labels := []string{}
+	labels := []string{holderLabel}
 	if want {
 		labels = append(labels, "accept")
 	} else {
 		labels = append(labels, "deny")
 	}
 	nt := c10NearBoundary(name, &labels)
+	if want && holderLabel == "holder-is-foreign-uuid" {
+		nt = true
+	}
 
 	if c.Online {
 		// online mode: an accepted name gets an EncryptionRequest and the connection
@@ -366,12 +383,21 @@ func c10GenUsername(t *rapid.T) []byte {
 
 func TestVerif_C10(t *testing.T) {
 	verifkit.Check(t, "C10", "login",
-		"usernames: valid names, valid alphabet at lengths 0/1/2/3/15/16/17/18/32, one substitution or insertion of a byte adjacent to the class boundaries / whitespace / NUL / newline / look-alike Unicode / invalid UTF-8, multi-line tricks, full-byte-alphabet and printable strings of 0..20; x 10 protocol versions 1.7.2..26.1; the real handleServerLogin (offline mode in 2/3 of the cases, online mode in 1/3: accepted = exactly one EncryptionRequest and the connection open; forwarding none) must accept iff 2..16 bytes of [A-Za-z0-9_]; the offline profile, and for >=1.20.2 the LoginSuccess packet and the registered player identity, must carry the reference MD5 v3 UUID and the unchanged name; non-trivial = name within one edit of the accept boundary",
+		"usernames: valid names, valid alphabet at lengths 0/1/2/3/15/16/17/18/32, one substitution or insertion of a byte adjacent to the class boundaries / whitespace / NUL / newline / look-alike Unicode / invalid UTF-8, multi-line tricks, full-byte-alphabet and printable strings of 0..20; x 10 protocol versions 1.7.2..26.1 x profile id announced in the login start (none / random / a real online id / the offline id of another name; 1.19.1+); the real handleServerLogin (offline mode in 2/3 of the cases, online mode in 1/3: accepted = exactly one EncryptionRequest and the connection open; forwarding none) must accept iff 2..16 bytes of [A-Za-z0-9_]; the offline profile, and for >=1.20.2 the LoginSuccess packet and the registered player identity, must carry the reference MD5 v3 UUID and the unchanged name; non-trivial = name within one edit of the accept boundary",
 		func(t *rapid.T) c10LoginCase {
 			return c10LoginCase{
 				Username: c10GenUsername(t),
 				Protocol: int(rapid.SampledFrom(c10Protocols).Draw(t, "protocol")),
 				Online:   rapid.IntRange(0, 2).Draw(t, "online") == 0,
+				Holder: rapid.OneOf(
+					rapid.Just([]byte(nil)),
+					rapid.SliceOfN(rapid.Byte(), 16, 16),
+					rapid.Just([]byte{0x06, 0x9a, 0x79, 0xf4, 0x44, 0xe9, 0x47, 0x26, 0xa5, 0xbe, 0xfc, 0xa9, 0x0e, 0x38, 0xaa, 0xf5}), // a real online-mode id (Notch)
+					rapid.Custom(func(t *rapid.T) []byte { // the offline id of another valid name
+						r := c10RefUUID(rapid.SampledFrom([]string{"Alice", "Notch", "bob_123"}).Draw(t, "otherName"))
+						return r[:]
+					}),
+				).Draw(t, "holder"),
 			}
 		}, c10LoginRun)
 }
